@@ -1,1 +1,229 @@
-/-! C04 — property theorems (placeholder until the model exists). -/
+import EupsModel.Lemmas.SetupFrame
+import EupsModel.Lemmas.SetupKeep
+import EupsModel.Lemmas.SetupInverse
+/-! C04 — setup changes only what it was asked to (keep, just, max-depth, bystanders).
+Model: `EupsModel/Model/Setup.lean`; lemmas: `EupsModel/Lemmas/SetupInv.lean`, `SetupFrame.lean`, `SetupKeep.lean`.
+
+`Within db top k m`: a path of `k` dependency lines — of any declared version, under any guard — leads from `top` to `m`
+(reading ii of DESIGN §6 C04, over-approximated: the tables of the versions a request selects *and of those it
+replaces* are among them).  `SameFor m e e'`: `m`'s record, `<M>_DIR` and the sub-list of `m`'s own elements of every
+path variable (order included) are the same in `e` and `e'`. -/
+namespace EupsModel.C04
+open EupsModel EupsModel.Setup
+
+private theorem init_alreadyOK (db : Db) (e : Setup.Env) : AlreadyOK db (St.init e).already := by
+  intro n d x h; simp [St.init, aget] at h
+
+/-! ## frame: products not reachable from the requested product are untouched — every database, mode, flag, fuel -/
+
+theorem C04_frame (db : Db) (fuel : Nat) (fwd : Bool) (r : Request) (e : Setup.Env) (s' : St) (m : Name)
+    (hm : ∀ k, ¬ Within db r.name k m)
+    (h : (if fwd then runSetup db fuel r e else runUnsetup db fuel r e) = .ok s') : SameFor m e s'.env := by
+  have key := setup_subjInv (r.cfg db) (fun _ n => ∃ k, Within db r.name k n) (SameFor m e)
+    (within_closedAt_unbounded (r.cfg db) r.name)
+    (sameFor_subjInv (r.cfg db) _ m (fun _ ⟨k, hk⟩ => hm k hk) e) fuel
+  cases fwd with
+  | true => exact key true 0 false r.vro r.name r.version none (St.init e) s' ⟨0, Within.root⟩ (init_alreadyOK db e) (SameFor.refl m e) h
+  | false => exact key false 0 false r.vro r.name none none (St.init e) s' ⟨0, Within.root⟩ (init_alreadyOK db e) (SameFor.refl m e) h
+
+/-- … and so does every `envSet` variable that no table of a reachable product sets (own `envSet` variables of
+bystanders included, whatever the tables look like) -/
+theorem C04_frame_vars (db : Db) (fuel : Nat) (fwd : Bool) (r : Request) (e : Setup.Env) (s' : St) (var : Str)
+    (hvar : ¬ SetVar db (fun n => ∃ k, Within db r.name k n) var)
+    (h : (if fwd then runSetup db fuel r e else runUnsetup db fuel r e) = .ok s') :
+    aget s'.env.vars var = aget e.vars var := by
+  have key := setup_subjInv (r.cfg db) (fun _ n => ∃ k, Within db r.name k n) _
+    (within_closedAt_unbounded (r.cfg db) r.name) (varsOther_subjInv (r.cfg db) _ e) fuel
+  have hvar' : ¬ SetVar (r.cfg db).db (fun n => ∃ _ : Nat, ∃ k, Within db r.name k n) var := by
+    intro ⟨d, hd, ⟨_, hk⟩, g, val, hg⟩
+    exact hvar ⟨d, hd, hk, g, val, hg⟩
+  cases fwd with
+  | true => exact key true 0 false r.vro r.name r.version none (St.init e) s' ⟨0, Within.root⟩ (init_alreadyOK db e) (fun _ _ => rfl) h var hvar'
+  | false => exact key false 0 false r.vro r.name none none (St.init e) s' ⟨0, Within.root⟩ (init_alreadyOK db e) (fun _ _ => rfl) h var hvar'
+
+/-! ## depth: with `--max-depth N` no product deeper than `N` is set up or altered -/
+
+/-- `m` is deeper than `N`: every path from the requested product to it has more than `N` edges -/
+theorem C04_depth (db : Db) (fuel : Nat) (fwd : Bool) (r : Request) (N : Nat) (hN : r.maxDepth = some N)
+    (e : Setup.Env) (s' : St) (m : Name) (hm : ∀ k, k ≤ N → ¬ Within db r.name k m)
+    (h : (if fwd then runSetup db fuel r e else runUnsetup db fuel r e) = .ok s') : SameFor m e s'.env := by
+  have key := setup_subjInv (r.cfg db) (fun k n => Within db r.name k n ∧ k ≤ N) (SameFor m e)
+    (within_closedAt (r.cfg db) r.name N hN)
+    (sameFor_subjInv (r.cfg db) _ m (fun k ⟨hk, hle⟩ => hm k hle hk) e) fuel
+  cases fwd with
+  | true => exact key true 0 false r.vro r.name r.version none (St.init e) s' ⟨Within.root, Nat.zero_le _⟩ (init_alreadyOK db e) (SameFor.refl m e) h
+  | false => exact key false 0 false r.vro r.name none none (St.init e) s' ⟨Within.root, Nat.zero_le _⟩ (init_alreadyOK db e) (SameFor.refl m e) h
+
+/-- … nor is any `envSet` variable that no table of a product within `N` edges sets -/
+theorem C04_depth_vars (db : Db) (fuel : Nat) (fwd : Bool) (r : Request) (N : Nat) (hN : r.maxDepth = some N)
+    (e : Setup.Env) (s' : St) (var : Str)
+    (hvar : ¬ SetVar db (fun n => ∃ k, Within db r.name k n ∧ k ≤ N) var)
+    (h : (if fwd then runSetup db fuel r e else runUnsetup db fuel r e) = .ok s') :
+    aget s'.env.vars var = aget e.vars var := by
+  have key := setup_subjInv (r.cfg db) (fun k n => Within db r.name k n ∧ k ≤ N) _
+    (within_closedAt (r.cfg db) r.name N hN) (varsOther_subjInv (r.cfg db) _ e) fuel
+  cases fwd with
+  | true => exact key true 0 false r.vro r.name r.version none (St.init e) s' ⟨Within.root, Nat.zero_le _⟩ (init_alreadyOK db e) (fun _ _ => rfl) h var hvar
+  | false => exact key false 0 false r.vro r.name none none (St.init e) s' ⟨Within.root, Nat.zero_le _⟩ (init_alreadyOK db e) (fun _ _ => rfl) h var hvar
+
+/-- `--just` (`max_depth = 0`): only the requested product changes -/
+theorem C04_just (db : Db) (fuel : Nat) (fwd : Bool) (r : Request) (hN : r.maxDepth = some 0)
+    (e : Setup.Env) (s' : St) (m : Name) (hm : m ≠ r.name)
+    (h : (if fwd then runSetup db fuel r e else runUnsetup db fuel r e) = .ok s') : SameFor m e s'.env := by
+  refine C04_depth db fuel fwd r 0 hN e s' m ?_ h
+  intro k hk hw
+  have : k = 0 := by omega
+  subst this
+  cases hw
+  exact hm rfl
+
+/-! ## keep -/
+
+/-- all `SETUP_*` records of the environment name declared versions -/
+def AllDeclared (db : Db) (e : Setup.Env) : Prop := ∀ n v, (n, v) ∈ e.recs → ∃ d, db.lookup (n, v) = some d
+
+private theorem aget_alreadyOfEnv (db : Db) (l : List (Name × Ver)) (hl : ∀ n v, (n, v) ∈ l → ∃ d, db.lookup (n, v) = some d)
+    (m : Name) (v : Ver) (h : aget l m = some v) :
+    ∃ d, aget (l.filterMap (fun (nv : Name × Ver) => (db.lookup (nv.1, nv.2)).map (fun d => (nv.1, ((d, none) : Decl × Option VroEnt))))) m
+      = some (d, none) ∧ d.ver = v := by
+  induction l with
+  | nil => simp [aget] at h
+  | cons p rest ih =>
+    obtain ⟨n', v'⟩ := p
+    obtain ⟨d', hd'⟩ := hl n' v' (by simp)
+    simp only [List.filterMap_cons, hd', Option.map_some]
+    by_cases hn : n' = m
+    · subst hn
+      simp [aget] at h; subst h
+      exact ⟨d', by simp [aget], (lookup_some db _ d' hd').2.2⟩
+    · simp [aget, hn] at h ⊢
+      exact ih (fun n v hm => hl n v (List.mem_cons_of_mem _ hm)) h
+
+private theorem selectVRO_keep (inexact : Bool) (tags : List Str) : VroEnt.keep ∈ selectVRO true inexact tags := by
+  unfold selectVRO
+  have h3 : lastFixed 0 0 [VroEnt.keep, .typeExact, .commandLine, .version, .versionExpr, .tag tagCurrent] = 3 := by decide
+  simp only [if_true, h3]
+  have hd : ∀ l : List VroEnt, VroEnt.keep ∈ dedup [] (VroEnt.keep :: l) := by intro l; simp [dedup]
+  cases inexact <;> cases tags <;> simp [dedup, List.mem_filter]
+
+/-- With `--keep`, when the requested product is not set up beforehand, every product that was set up retains its
+version (D21 is the excluded class: the requested product already set up, in which case it is unwound together with
+its dependencies before `keep` is consulted).  Every database, every other flag, every fuel. -/
+theorem C04_keep_partial (db : Db) (fuel : Nat) (r : Request) (hkeep : r.keep = true) (e : Setup.Env) (s' : St)
+    (hdecl : AllDeclared db e) (hnot : e.rec? r.name = none)
+    (h : runSetup db fuel r e = .ok s') : ∀ m v, e.rec? m = some v → s'.env.rec? m = some v := by
+  unfold runSetup at h
+  cases fuel with
+  | zero => simp [setup_zero] at h
+  | succ k =>
+    rw [setup_succ_true] at h
+    have ha0 := init_alreadyOK db e
+    cases hres : resolve (r.cfg db).db (r.cfg db).path (r.cfg db).keep (St.init e).already r.name r.version none 0 r.vro.length r.vro with
+    | none => rw [hres] at h; cases h
+    | error => rw [hres] at h; cases h
+    | found d reason =>
+      rw [hres] at h
+      obtain ⟨hc, hname⟩ := resolve_spec _ _ _ _ ha0 _ _ _ _ _ _ _ _ hres
+      simp only at h
+      have hpd : pickDecl (r.cfg db).db (St.init e).cache d = d := rfl
+      rw [hpd] at h
+      generalize hcache : ((St.init e).afterResolve (r.cfg db) 0 r.vro r.name r.version none).cache = c0
+      -- the registered state mirrors every record
+      have hreg : register (r.cfg db) 0 d reason ((St.init e).afterResolve (r.cfg db) 0 r.vro r.name r.version none) =
+          ⟨e, [], [], aset (alreadyOfEnv db e) d.name (d, reason), c0⟩ := by
+        rw [← hcache]; simp [register, St.init, St.afterResolve, Request.cfg]
+      rw [hreg] at h
+      have hmir : Mirror ⟨e, [], [], aset (alreadyOfEnv db e) d.name (d, reason), c0⟩ := by
+        intro m v hmv
+        have hne : m ≠ d.name := by intro e'; rw [e', hname, hnot] at hmv; cases hmv
+        obtain ⟨d', hg, hv⟩ := aget_alreadyOfEnv db e.recs hdecl m v hmv
+        refine ⟨d', none, ?_, hv⟩
+        show aget (aset (alreadyOfEnv db e) d.name (d, reason)) m = _
+        rw [aget_aset_other _ _ _ _ hne]; exact hg
+      have hal : AlreadyOK (r.cfg db).db (aset (alreadyOfEnv db e) d.name (d, reason)) :=
+        alreadyOK_aset _ _ (alreadyOfEnv_ok db e) d reason hc
+      have hvro : VroEnt.keep ∈ r.vro := by
+        unfold Request.vro; rw [hkeep]; exact selectVRO_keep _ _
+      have hpost := install_keep (r.cfg db) (setup (r.cfg db) k) (setup_alOK _ k) (setup_keepSpec _ k) 0 false r.vro hvro
+        d reason hc ⟨e, [], [], aset (alreadyOfEnv db e) d.name (d, reason), c0⟩ hal hmir (by
+          intro sd hsp
+          obtain ⟨_, _, hr⟩ := setupProd_some _ _ _ _ hsp
+          rw [hname, hnot] at hr; cases hr)
+      rw [h] at hpost
+      exact hpost.2.1
+
+/-! ## D21: `--keep` does not protect the dependencies of the requested product's previously set-up version -/
+
+def nA : Name := [97]
+def nC : Name := [99]
+def v1 : Ver := ([49], 0)
+def v3 : Ver := ([51], 0)
+
+/-- `a 1 → c`, `a 3` has no dependencies -/
+def dbKeep : Db :=
+  { decls := [⟨nA, v1, [1], [(.always, .dep nC false false none none [] false)]⟩, ⟨nA, v3, [2], []⟩, ⟨nC, v1, [3], []⟩],
+    tags := [(tagCurrent, nA, v1), (tagCurrent, nC, v1)] }
+
+def envOf : Res → Option Setup.Env
+  | .ok s => some s.env
+  | _ => none
+
+/-- after `setup a` (→ `a 1`, `c 1`), `setup --keep a 3` ends with `c` not set up -/
+theorem C04_keep_drop_witness :
+    ∃ e1 e2, envOf (runSetup dbKeep 10 ⟨nA, none, false, none, false, [], [0]⟩ Setup.Env.empty) = some e1 ∧
+      envOf (runSetup dbKeep 10 ⟨nA, some (.explicit v3.1), true, none, false, [], [0]⟩ e1) = some e2 ∧
+      e1.rec? nC = some v1 ∧ e2.rec? nC = none := by
+  refine ⟨⟨[(nC, v1), (nA, v1)], [(nC, .own (nC, v1) []), (nA, .own (nA, v1) [])], [], []⟩,
+          ⟨[(nA, v3)], [(nA, .own (nA, v3) [])], [], []⟩, ?_, ?_, ?_, ?_⟩ <;> decide +kernel
+
+/-! ## the narrower reading of "reachable" fails (for the record; not claimed) -/
+
+def nP : Name := [112]
+def nX : Name := [120]
+def nZ : Name := [122]
+def v2 : Ver := ([50], 0)
+
+/-- `p 1 → z`, `p 2` has no dependencies, the bystander `x 1 → z` -/
+def dbNarrow : Db :=
+  { decls := [⟨nP, v1, [1], [(.always, .dep nZ false false none none [] false)]⟩, ⟨nP, v2, [2], []⟩,
+              ⟨nX, v1, [3], [(.always, .dep nZ false false none none [] false)]⟩, ⟨nZ, v1, [4], []⟩],
+    tags := [(tagCurrent, nP, v1), (tagCurrent, nX, v1), (tagCurrent, nZ, v1)] }
+
+/-- Under the reading "reachable through the tables of the newly selected versions only", `z` is not reachable from
+the request `setup p 2` (`p 2` has no dependencies) — yet it loses its record, although the bystander `x` needs it:
+replacing `p 1` unwinds `p 1`'s dependencies.  `C04_frame` is therefore stated for reachability through the tables of
+the selected *and the replaced* versions. -/
+theorem C04_narrow_frame_fails :
+    ∃ e1 e2 e3, envOf (runSetup dbNarrow 10 ⟨nX, none, false, none, false, [], [0]⟩ Setup.Env.empty) = some e1 ∧
+      envOf (runSetup dbNarrow 10 ⟨nP, none, false, none, false, [], [0]⟩ e1) = some e2 ∧
+      envOf (runSetup dbNarrow 10 ⟨nP, some (.explicit v2.1), false, none, false, [], [0]⟩ e2) = some e3 ∧
+      e2.rec? nZ = some v1 ∧ e3.rec? nZ = none ∧ e3.rec? nX = some v1 := by
+  refine ⟨⟨[(nZ, v1), (nX, v1)], [(nZ, .own (nZ, v1) []), (nX, .own (nX, v1) [])], [], []⟩,
+          ⟨[(nP, v1), (nZ, v1), (nX, v1)], [(nP, .own (nP, v1) []), (nZ, .own (nZ, v1) []), (nX, .own (nX, v1) [])], [], []⟩,
+          ⟨[(nP, v2), (nX, v1)], [(nP, .own (nP, v2) []), (nX, .own (nX, v1) [])], [], []⟩, ?_, ?_, ?_, ?_, ?_, ?_⟩ <;>
+    decide +kernel
+
+/-- the hypotheses of `C04_keep_partial` are satisfiable with something to keep: `c 1` is set up, `a` is not -/
+example : AllDeclared dbKeep ⟨[(nC, v1)], [(nC, .own (nC, v1) [])], [], []⟩ ∧
+    (⟨[(nC, v1)], [(nC, .own (nC, v1) [])], [], []⟩ : Setup.Env).rec? nA = none := by
+  constructor
+  · intro n v h
+    simp at h; obtain ⟨rfl, rfl⟩ := h
+    exact ⟨⟨nC, v1, [3], []⟩, by decide +kernel⟩
+  · decide +kernel
+
+/-- a product outside the reach of the request exists in `dbKeep`: nothing leads from `c` to `a` -/
+example : ∀ k, ¬ Within dbKeep nC k nA := by
+  intro k h
+  have key : ∀ k n, Within dbKeep nC k n → n = nC := by
+    intro k n hw
+    induction hw with
+    | root => rfl
+    | step _ hd hn hg ih =>
+      subst ih
+      simp [dbKeep] at hd
+      rcases hd with rfl | rfl | rfl <;> simp at hg <;> simp [nA, nC] at hn
+  have := key k nA h
+  simp [nA, nC] at this
+
+end EupsModel.C04
